@@ -19,12 +19,13 @@
                                                      ProtoPrims.walk_node: what is appended, in
                                                      order, and how the walk ended)
    Generate.findProtos                            →  [s_find_protos]
-   protoFileHasGoPackage                          →  [s_has_go_package] (some line contains
-                                                     `option go_package =`)
+   protoFileHasGoPackage                          →  [s_has_go_package] (open, then the byte
+                                                     scanner ProtoLex.scan_go_package)
    Run: plugin flags                              →  [s_plugin_flags]
    Run: the three M options of one mapping        →  [s_mapping_args]
    Run: body of the loop over the protos found    →  [s_file_args]
-   Run: body of the loop over includePaths        →  [s_include_args]
+   Run: body of the loop over includePaths        →  [s_include_core]; with strings.Cut for
+                                                     the -include entries: [s_include_args]
    Run                                            →  [s_run] : (returned error, invocations)    *)
 From Coq Require Import String List Bool Arith Ascii ZArith.
 From GT Require Export ProtoPrims.
@@ -94,8 +95,8 @@ Definition s_find_protos (W : world) (g : Generate) (dir : string) (recurse : bo
   s_walk_root (s_cb (g_InputDir g) recurse) W dir.
 
 Definition s_has_go_package (W : world) (p : string) : bool * gerror :=
-  let '(lines, e) := fs_open W p in
-  if err_is_nil e then (existsb (str_contains go_package_marker) lines, ENil) else (false, e).
+  let '(r, e) := fs_open W p in
+  if err_is_nil e then scan_reader r else (false, e).
 
 (* ------------------------------------------------------------------ Run *)
 Definition s_plugin_flags (g : Generate) : list string :=
@@ -141,9 +142,9 @@ Definition s_file_args (W : world) (g : Generate) (inc prefix : string) (has_pre
       if negb (err_is_nil e) then inr e
       else inl (s_mapping_args g (relp ++ "=" ++ pkg)%string).
 
-(* generate.go:57-111 — one entry of includePaths: dir or dir=prefix *)
-Definition s_include_args (W : world) (g : Generate) (entry : string) : list string + gerror :=
-  let '(dir, prefix, has_prefix) := str_cut entry in
+(* one iteration of the loop over includePaths, for directory [dir] and optional prefix *)
+Definition s_include_core (W : world) (g : Generate) (dir prefix : string) (has_prefix : bool)
+  : list string + gerror :=
   let inc := fp_abs (w_cwd W) dir in
   let '(ps, e) := s_find_protos W g inc true in
   if negb (err_is_nil e) then inr e
@@ -152,16 +153,26 @@ Definition s_include_args (W : world) (g : Generate) (entry : string) : list str
        | inl l => inl (("-I=" ++ inc)%string :: l)
        end.
 
+(* an -include entry: dir or dir=prefix *)
+Definition s_include_args (W : world) (g : Generate) (entry : string) : list string + gerror :=
+  let '(dir, prefix, has_prefix) := str_cut entry in s_include_core W g dir prefix has_prefix.
+
 Definition s_protoc (g : Generate) : string :=
   if String.eqb (g_ProtocPath g) "" then "protoc" else g_ProtocPath g.
 
 Definition s_argv (W : world) (g : Generate) : list string + gerror :=
   let '(paths, e) := s_find_protos W g (g_InputDir g) (g_Recurse g) in
   if negb (err_is_nil e) then inr e
-  else match s_collect (s_include_args W g) (g_InputDir g :: g_Include g) with
-       | inr e => inr e
-       | inl incs => inl (s_plugin_flags g ++ incs ++ paths)
-       end.
+  else
+    (* the input directory is a plain path (no cut at '='), the -include entries follow *)
+    match s_include_core W g (g_InputDir g) "" false with
+    | inr e => inr e
+    | inl first =>
+        match s_collect (s_include_args W g) (g_Include g) with
+        | inr e => inr e
+        | inl incs => inl (s_plugin_flags g ++ (first ++ incs) ++ paths)
+        end
+    end.
 
 (* Generate.Run: the error it returns and the programs it executed *)
 Definition s_run (W : world) (g : Generate) : gerror * list invocation :=
